@@ -19,6 +19,7 @@ out += ["//@ func (*Entry).ResetContextKeys", "//@   props C10", "//@   requires
 for fn, field, arg in [("SetAttrs","attrs","attrs"),("SetAttrs1","attrs","attrs"),("SetContextKeys","contextKeys","keys")]:
     out += [f"//@ func (*Entry).{fn}", "//@   props C10", "//@   requires s != nil", f"//@   assigns s.{field}, s.{field}[:]",
             f"//@   ensures [C10.set] len(s.{field}) == old(len(s.{field})) + len({arg}) && forall(j, 0, old(len(s.{field})), s.{field}[j] == old(s.{field}[j])) && forall(j, 0, len({arg}), s.{field}[old(len(s.{field}))+j] == old({arg}[j]))",
+            f"//@   ensures [C10.own-array] implies(old(cap(s.{field})) == 0 && len({arg}) > 0, fresh(s.{field}))",
             "//@   ensures [C10.ret] result == s", ""]
 out += ["//@ func (*Entry).Set", "//@   props C10", "//@   requires s != nil", "//@   assigns everything", "//@   maypanic",
         keeps_all_but("attrs"), "//@   keeps Entry.attrs except s", "//@   keeps dualWriter.*, map[string]*Entry",
